@@ -51,6 +51,7 @@ Definition spec_C19 (i : winput) (o : obs_C19) : bool :=
       (* every binary load and every JAX load ends in build_with_defaults *)
       match o with Ok (ts, cat, mo) => defaults_ok ts cat mo | _ => true end
   | WSub _ _ _ => true                   (* sub_ontology ends in build_minimal: no defaults *)
+  | WBulk _ _ _ _ => true                (* generated for C03 only *)
   | WBuilder s =>
       match builder_defaults (fst i) with
       | None => true                       (* build_minimal: no defaults requested *)
